@@ -27,6 +27,12 @@ def run_property(prop, tier, seed, work, jobs, t0):
         "TLC evaluates the specification correctly; tla2tools 1.8.0 + CommunityModules",
         "outside the enumerated small scope, coverage is seeded sampling (VERIF_SEED) judged by the total oracle",
     ]}
+    # the binding self-test: corrupted copies of a recorded trace must be rejected (DESIGN.md 3.5)
+    st_viol = []
+    if os.environ.get("VERIF_SELFTEST", "1") == "1":
+        import selftest
+        st_stats, st_viol = selftest.run([prop], os.path.join(work, "selftest"))
+        extra["coverage"]["binding_selftest"] = st_stats
     mc_stats = None
     try:
         import mc
@@ -44,6 +50,7 @@ def run_property(prop, tier, seed, work, jobs, t0):
             yield s
 
     stats, viol = runner.run_sessions(prop, all_sessions(), [prop], work, jobs)
+    viol = list(st_viol) + list(viol)
     if mc_stats:
         stats["states"] += mc_stats["states"]
         stats["transitions"] += mc_stats["transitions"]
@@ -69,6 +76,16 @@ def run_property(prop, tier, seed, work, jobs, t0):
             print(f"VIOLATION property={prop} replay={path}")
             log(f"  session {sid}: event #{off} ({op}) is not allowed by the specification")
         code = 1
+    if prop == "C12":
+        cells = {k[7:]: v for k, v in stats["ops"].items() if k.startswith("matrix:")}
+        for k in list(stats["ops"]):
+            if k.startswith("matrix:"):
+                del stats["ops"][k]
+        extra["coverage"]["conversion_matrix_cells"] = cells
+        want = {f"{v}->{t}" for v in ("sr", "rr", "sdes", "bye", "app", "tfb", "pfb", "unknown") for t in ("sr", "rr", "sdes", "bye", "app", "tfb", "pfb")}
+        missing = sorted(want - set(cells))
+        if missing and code == 0:
+            raise runner.ToolError(f"C12: conversion matrix cells never exercised (vacuity guard): {missing}")
     extra["coverage"]["known_findings_matched"] = sorted(reported)
     extra["coverage"]["events_matching_known_findings"] = nknown
     wall = time.time() - t0
